@@ -34,7 +34,7 @@ LARGE = dict(n1=14, n2=14, n2min=9, n3=13, lmax=5)
 
 
 def budget(tier):
-    return 8000 if tier == 'quick' else 60000
+    return 8000 if tier == 'quick' else 250000
 
 
 @st.composite
